@@ -224,6 +224,10 @@ pub fn case(t: &mut Tape, ctx: &CaseCtx) -> CaseResult {
         script.installs = vec![];
         script.check_decisions = vec![];
     }
+    if t.chance(1, 3) {
+        // replies labelled with unauthenticated headers (Content-Type text/html, Content-Length 0, cache headers)
+        script.content_type_mask = t.raw();
+    }
     let h = run_history(script.clone(), &lives);
     let (nontrivial, mut classes, forged_reports) = check_history(&h)?;
     if !forged_reports.is_empty() && !with_pings {
